@@ -2839,7 +2839,8 @@ class WorkflowGraph(object):
         ))
 
         condition_instances = sorted(
-            [c for c in all_looped_ids if c[1].split('#', 1)[1] == cond_name],
+            # VV: Looped components of different stages may share a name, match the stage of the condition too
+            [c for c in all_looped_ids if c[1].split('#', 1)[1] == cond_name and c[0] == cond_stage + import_in_stage],
             # VV: Sort on iteration number from stage<idx:%d>.<iteration-no:%d>#<name:str>
             key=lambda c: int(c[1].split('#', 1)[0]),
             reverse=True
